@@ -521,7 +521,7 @@ func runUpdate(c fw.Case) fw.Result {
 			}
 			r.Count("overlapping_updates", 1)
 			for n, v := range st2 {
-				if prev, dup := status[n]; dup && callErr == nil {
+				if prev, dup := status[n]; dup && callErr == nil && prev != types.ProcessUpdateError && v != types.ProcessUpdateError {
 					r.Add("C14", "overlapping-updates-both-applied", "update %d issued twice concurrently: %s was reported %s by one request and %s by the other", u, n, prev, v)
 				}
 				if status == nil {
@@ -533,6 +533,15 @@ func runUpdate(c fw.Case) fw.Result {
 			callErr = doUpdate(&status)
 		}
 		retSeq := len(w.Events())
+		if callErr == nil {
+			// through the REST client a partial failure comes back as status
+			// entries only (207 Multi-Status)
+			for n, v := range status {
+				if v == types.ProcessUpdateError {
+					callErr = fmt.Errorf("status of %s: %s (no such process?)", n, v)
+				}
+			}
+		}
 		if callErr != nil {
 			// a changed/removed process whose command exited by itself at the very
 			// moment it was to be stopped makes the stop - and with it the update -
@@ -544,7 +553,7 @@ func runUpdate(c fw.Case) fw.Result {
 					raced = true
 				}
 			}
-			if raced && strings.Contains(callErr.Error(), "no such process") {
+			if raced && (strings.Contains(callErr.Error(), "no such process") || sp.ViaClient) {
 				r.Count("update_failed_stop_raced_with_exit", 1)
 				break
 			}
